@@ -71,13 +71,31 @@ theorem logonReply_base (s : Sess) (m : InMsg) (flag : Bool) :
          else sendLogonRe (replyBase s m) flag m)
       else s := rfl
 
-theorem logonMsg_141 (s : Sess) : (logonMsg s true).f.get? 141 = some "Y" := by
-  unfold logonMsg mkOut Fields.get?
+theorem logonMsgX_141 (s : Sess) (nx : Option Int) : (logonMsgX s true nx).f.get? 141 = some "Y" := by
+  unfold logonMsgX mkOut Fields.get?
   simp
 
-theorem logonMsg_mem141 (s : Sess) : (141, "Y") ∈ (logonMsg s true).f := by
-  unfold logonMsg mkOut
+theorem logonMsgX_mem141 (s : Sess) (nx : Option Int) : (141, "Y") ∈ (logonMsgX s true nx).f := by
+  unfold logonMsgX mkOut
   simp
+
+theorem logonMsgX_no141 (s : Sess) (nx : Option Int) : (logonMsgX s false nx).f.get? 141 = none := by
+  unfold logonMsgX mkOut Fields.get? nxTag
+  cases nx <;> by_cases h : s.cfg.applVer.isEmpty = true <;> simp [h, List.find?]
+
+theorem logonMsg_141 (s : Sess) : (logonMsg s true).f.get? 141 = some "Y" := logonMsgX_141 s _
+theorem logonMsg_mem141 (s : Sess) : (141, "Y") ∈ (logonMsg s true).f := logonMsgX_mem141 s _
+theorem logonMsgRe_mem141 (s : Sess) (m : InMsg) : (141, "Y") ∈ (logonMsgRe s true m).f := logonMsgX_mem141 s _
+
+/-- a Logon whose ResetSeqNumFlag reads `Y` has tag 141: its tag 789 is not evaluated -/
+theorem has141_of_flag (m : InMsg) (h : logonResetFlag m = true) : m.f.has 141 = true := by
+  unfold logonResetFlag getBool at h
+  cases hg : m.f.get? 141 with
+  | none => rw [hg] at h; simp at h
+  | some v => exact Fields.has_of_get? _ _ v hg
+
+theorem nxEval_flag (s : Sess) (m : InMsg) (ns : Int) (h : logonResetFlag m = true) : nxEval s m ns = (s, none) := by
+  unfold nxEval; rw [has141_of_flag m h]; simp
 
 theorem logonMsg_kind (s : Sess) (b : Bool) : (logonMsg s b).kind = "A" := rfl
 
@@ -115,12 +133,12 @@ theorem sendLogon_reset (s : Sess) :
 
 /-- … and in reply to the Logon `m` (the acceptor's answer) -/
 theorem sendLogonRe_reset (s : Sess) (m : InMsg) :
-    let reply : OutMsg := { stamp s ((logonMsg s true).inReplyTo m) with seq := 1 }
+    let reply : OutMsg := { stamp s ((logonMsgRe s true m).inReplyTo m) with seq := 1 }
     let s' := sendLogonRe s true m
     s'.store.sender = 2 ∧ s'.store.target = 1 ∧ s'.store.msgs = (if s.cfg.persist then [(1, reply)] else []) ∧ s'.sentReset = true
     ∧ s'.cfg = s.cfg ∧ s'.st = s.st ∧ s'.hb = s.hb ∧ s'.store.epoch = s.store.epoch + 1
     ∧ (s.out = true → s'.log = .wire reply :: (if s.cfg.persist then .saved 1 "A" (resendable reply) else .incS) :: .reset :: s.log) :=
-  dropAndSend_reset s ((logonMsg s true).inReplyTo m) rfl (logonMsg_141 s)
+  dropAndSend_reset s ((logonMsgRe s true m).inReplyTo m) rfl (logonMsgX_141 s _)
 
 theorem replyBase_frame (s : Sess) (m : InMsg) :
     (replyBase s m).cfg = s.cfg ∧ (replyBase s m).st = s.st ∧ (replyBase s m).store = s.store ∧ (replyBase s m).out = s.out
@@ -135,9 +153,10 @@ theorem replyBase_frame (s : Sess) (m : InMsg) :
     Logon consumed number 1: both counters are 2 afterwards, `sentReset` is down again. -/
 theorem logon_reset_received (s : Sess) (m : InMsg) (hi : s.cfg.initiator = false)
     (h5 : (s.cfg.bs == 5 && !m.f.has 1137) = false) (hg : GateMsg s.cfg m) (ht : TimeGate s m)
-    (hv : callbackVerdict m = none) (hf : logonResetFlag m = true) (hsr : s.sentReset = false) (h34 : getInt m 34 = .val 1) :
-    ∃ base : Sess, base.cfg = s.cfg ∧
-    let reply : OutMsg := { stamp base ((logonMsg base true).inReplyTo m) with seq := 1 }
+    (hv : callbackVerdict m = none) (hf : logonResetFlag m = true) (hsr : s.sentReset = false) (h34 : getInt m 34 = .val 1)
+    (hnx : nxAbove s.cfg m 1 = false) :
+    ∃ base : Sess, base.cfg = s.cfg ∧ base.store.target = 1 ∧
+    let reply : OutMsg := { stamp base ((logonMsgRe base true m).inReplyTo m) with seq := 1 }
     let r := handleLogon s m
     r.2 = none ∧ r.1.store.sender = 2 ∧ r.1.store.target = 2 ∧ r.1.sentReset = false
     ∧ r.1.store.msgs = (if s.cfg.persist then [(1, reply)] else [])
@@ -156,6 +175,7 @@ theorem logon_reset_received (s : Sess) (m : InMsg) (hi : s.cfg.initiator = fals
   obtain ⟨s3, hs3⟩ : ∃ x, x = dropAndReset s2 := ⟨_, rfl⟩
   have a3 : s3.cfg = s.cfg ∧ s3.st = s.st ∧ s3.out = s.out ∧ s3.store.target = 1 ∧ Obs.reset ∈ s3.log := by
     rw [hs3]; exact ⟨a2.1, a2.2.1, a2.2.2.2, rfl, by simp [dropAndReset, Sess.setToSend, Sess.storeReset, Sess.emit]⟩
+  have a3s : s3.store.sender = 1 := by rw [hs3]; rfl
   have c3 := a3.1
   have e2 : verifySelect s3 m false true false = (s3, none) := by
     rw [verifySelect_complete s3 m false true false (by rw [c3]; exact hg.begin) (by rw [c3]; exact hg.comp)
@@ -177,8 +197,10 @@ theorem logon_reset_received (s : Sess) (m : InMsg) (hi : s.cfg.initiator = fals
   generalize hs4 : sendLogonRe (replyBase s3 m) true m = s4 at q1 q2 q3 q4 q5 q6 q7 q8 q9 e3 hrel
   -- stage 4: notification and consuming the Logon's number
   obtain ⟨s5, hs5⟩ : ∃ x, x = ((s4.setSentReset false).emit (.armPeer (1200 * s4.hb))).emit .onLogon := ⟨_, rfl⟩
-  have e4 : logonFinish s4 m = (incrTarget s5, none) := by
+  have e4 : ∀ ns, logonFinish s4 m ns = (incrTarget s5, none) := by
+    intro ns
     unfold logonFinish
+    rw [nxEval_flag _ m ns hf]
     simp only []
     rw [← hs5]
     have : checkTooHigh s5 m = none := by
@@ -190,12 +212,15 @@ theorem logon_reset_received (s : Sess) (m : InMsg) (hi : s.cfg.initiator = fals
     rw [if_neg (by rw [h5]; simp), hs1]
     simp only [e1, hreset, if_true]
     rw [← hs3]
-    simp only [e2, e3, e4]
-  refine ⟨replyBase s3 m, b1.trans c3, ?_⟩
+    have hnr : logonRefuses s3 m (logonResetFlag m) = false := by
+      unfold logonRefuses nxRefuses; rw [c3, a3s, hnx, Bool.and_false]
+    unfold logonTail
+    simp only [e2, hnr, Bool.false_eq_true, if_false, e3, e4]
+  refine ⟨replyBase s3 m, b1.trans c3, by rw [b3]; exact a3.2.2.2.1, ?_⟩
   intro reply r
   have hr : r = (incrTarget s5, none) := hl
   rw [hr, hs5]
-  refine ⟨rfl, ?_, ?_, rfl, ?_, logonMsg_mem141 _, rfl, rfl, ?_, ?_, ?_⟩
+  refine ⟨rfl, ?_, ?_, rfl, ?_, logonMsgRe_mem141 _ _, rfl, rfl, ?_, ?_, ?_⟩
   · show s4.store.sender = 2; exact q1
   · show s4.store.target + 1 = 2; rw [q2]; rfl
   · show s4.store.msgs = _; rw [q3, b1, c3]
@@ -208,6 +233,143 @@ theorem logon_reset_received (s : Sess) (m : InMsg) (hi : s.cfg.initiator = fals
     have : Obs.reset ∈ (replyBase s3 m).log := by rw [b5]; exact a3.2.2.2.2
     obtain ⟨extra, hx, _⟩ := hrel.log
     rw [hx]; simp [this]
+
+
+/-! ## EnableNextExpectedMsgSeqNum: tag 789 of our Logons, the peer's tag 789 -/
+
+theorem mem_nxTag (l : Fields) (n : Int) : (789, toString n) ∈ l ++ nxTag (some n) := by simp [nxTag]
+
+theorem logonMsgX_mem789 (s : Sess) (reset : Bool) (n : Int) : (789, toString n) ∈ (logonMsgX s reset (some n)).f := by
+  unfold logonMsgX mkOut; exact mem_nxTag _ n
+
+theorem logonMsgX_no789 (s : Sess) (reset : Bool) : (logonMsgX s reset none).f.get? 789 = none := by
+  unfold logonMsgX mkOut Fields.get? nxTag
+  cases reset <;> by_cases h : s.cfg.applVer.isEmpty = true <;> simp [h, List.find?]
+
+/-- the acceptor's reply without the reset flag: numbered with the next outbound number, nothing else in the store changes -/
+theorem sendLogonRe_plain (s : Sess) (m : InMsg) :
+    let reply : OutMsg := { stamp s ((logonMsgRe s false m).inReplyTo m) with seq := s.store.sender }
+    let s' := sendLogonRe s false m
+    s'.store.sender = s.store.sender + 1 ∧ s'.store.target = s.store.target ∧ s'.store.epoch = s.store.epoch
+    ∧ s'.store.msgs = (if s.cfg.persist then (s.store.sender, reply) :: s.store.msgs else s.store.msgs)
+    ∧ s'.sentReset = s.sentReset ∧ s'.cfg = s.cfg ∧ s'.st = s.st ∧ s'.out = s.out
+    ∧ (s.out = true → s'.log = .wire reply :: (if s.cfg.persist then .saved s.store.sender "A" (resendable reply) else .incS) :: s.log
+                      ∧ s'.toSend = []) := by
+  intro reply s'
+  have hkA : (logonMsgRe s false m).kind = "A" := rfl
+  have hk : isAdminKind (stamp s ((logonMsgRe s false m).inReplyTo m)).kind = true := by
+    rw [stamp_kind, inReplyTo_kind, hkA]; decide
+  have h141 : ((logonMsgRe s false m).inReplyTo m).f.get? 141 = none := logonMsgX_no141 s _
+  have hr : ((stamp s ((logonMsgRe s false m).inReplyTo m)).kind == "A" && (stamp s ((logonMsgRe s false m).inReplyTo m)).f.get? 141 == some "Y") = false := by
+    rw [stamp_f, h141]; simp
+  have : s' = sendQueued ((s.persistOut s.store.sender reply).setToSend [reply]) := by
+    show dropAndSend s ((logonMsgRe s false m).inReplyTo m) = _
+    unfold dropAndSend prep prepCore
+    simp only [hk, hr, if_true, Bool.false_eq_true, if_false]
+    rfl
+  rw [this]
+  unfold sendQueued Sess.persistOut
+  cases hp : s.cfg.persist <;> cases ho : s.out <;>
+    simp [Sess.setToSend, Sess.emit, hp, ho, reply, hkA]
+
+/-- the evaluation of the peer's tag 789 never touches the store, the configuration, the state or `sentReset` -/
+theorem nxEval_frame (s : Sess) (m : InMsg) (ns : Int) :
+    (nxEval s m ns).1.store = s.store ∧ (nxEval s m ns).1.cfg = s.cfg ∧ (nxEval s m ns).1.st = s.st
+    ∧ (nxEval s m ns).1.sentReset = s.sentReset ∧ (nxEval s m ns).1.out = s.out ∧ (nxEval s m ns).1.hb = s.hb := by
+  have he : ∀ o : OutMsg, (enqueueAndSend s o).store = s.store ∧ (enqueueAndSend s o).cfg = s.cfg ∧ (enqueueAndSend s o).st = s.st
+      ∧ (enqueueAndSend s o).sentReset = s.sentReset ∧ (enqueueAndSend s o).out = s.out ∧ (enqueueAndSend s o).hb = s.hb := by
+    intro o
+    unfold enqueueAndSend sendQueued
+    simp only []
+    repeat' split
+    all_goals exact ⟨rfl, rfl, rfl, rfl, rfl, rfl⟩
+  unfold nxEval
+  repeat' split
+  all_goals first | exact he _ | exact ⟨rfl, rfl, rfl, rfl, rfl, rfl⟩
+
+/-- when nothing is to be done: the option off, a Logon carrying tag 141, no readable 789, or a 789 equal to our number -/
+theorem nxEval_quiet (s : Sess) (m : InMsg) (ns : Int)
+    (h : s.cfg.nextExpected = false ∨ m.f.has 141 = true ∨ peerNext m = none ∨ peerNext m = some ns) : nxEval s m ns = (s, none) := by
+  unfold nxEval
+  rcases h with h | h | h | h
+  · rw [h]; rfl
+  · rw [h]; simp
+  · rw [h]; simp
+  · rw [h]; simp
+
+/-- the implied gap fill: the option on, no tag 141, a readable 789 different from our number, message persistence on -/
+theorem nxEval_fill (s : Sess) (m : InMsg) (ns n : Int) (h1 : s.cfg.nextExpected = true) (h2 : m.f.has 141 = false)
+    (h3 : peerNext m = some n) (h4 : n ≠ ns) (hp : s.cfg.persist = true) :
+    nxEval s m ns = (enqueueAndSend s (gapFillRe s m n (ns + 1)), none) := by
+  unfold nxEval
+  rw [h1, h2, h3, hp]
+  simp [h4]
+
+/-- … and without persistence: the error `targetTooHigh{789, our outbound number}`, nothing sent -/
+theorem nxEval_nopersist (s : Sess) (m : InMsg) (ns n : Int) (h1 : s.cfg.nextExpected = true) (h2 : m.f.has 141 = false)
+    (h3 : peerNext m = some n) (h4 : n ≠ ns) (hp : s.cfg.persist = false) :
+    nxEval s m ns = (s, some (.tooHigh n ns)) := by
+  unfold nxEval
+  rw [h1, h2, h3, hp]
+  simp [h4]
+
+theorem nxEval_log (s : Sess) (m : InMsg) (ns : Int) : ∃ pre, (nxEval s m ns).1.log = pre ++ s.log := by
+  have hq : ∀ x : Sess, ∃ pre, (sendQueued x).log = pre ++ x.log := by
+    intro x; unfold sendQueued; split
+    · exact ⟨_, rfl⟩
+    · exact ⟨[], rfl⟩
+  have he : ∀ (x : Sess) (o : OutMsg), ∃ pre, (enqueueAndSend x o).log = pre ++ x.log := by
+    intro x o; unfold enqueueAndSend; simp only []
+    split <;> exact hq _
+  unfold nxEval
+  repeat' split
+  all_goals first | exact he _ _ | exact ⟨[], rfl⟩
+
+/-- with a connection the gap fill is the last thing written; what was queued goes out in front of it when logged on and is
+    dropped from the wire queue otherwise (EnqueueBytesAndSend) -/
+theorem enqueueAndSend_log (s : Sess) (o : OutMsg) (ho : s.out = true) :
+    (enqueueAndSend s o).log = Obs.wire o :: ((if s.st.loggedOn then s.toSend else []).map Obs.wire).reverse ++ s.log
+    ∧ (enqueueAndSend s o).toSend = [] := by
+  unfold enqueueAndSend sendQueued
+  cases hl : s.st.loggedOn <;> simp [Sess.setToSend, ho]
+
+/-- a Logon that passes every gate, asks for no reset (or is the echo of ours) and is not below the expected number reaches
+    the tail of `handleLogon` with nothing changed but the callback observations -/
+theorem handleLogon_passes (s : Sess) (m : InMsg)
+    (h5 : (s.cfg.bs == 5 && !m.f.has 1137) = false) (hg : GateMsg s.cfg m) (ht : TimeGate s m)
+    (hv : callbackVerdict m = none) (hro : (if s.cfg.initiator then false else s.cfg.resetOnLogon) = false)
+    (hf : logonResetFlag m = false ∨ s.sentReset = true) (n : Int) (h34 : getInt m 34 = .val n) (hge : s.store.target ≤ n) :
+    ∃ s2 : Sess, s2.cfg = s.cfg ∧ s2.st = s.st ∧ s2.store = s.store ∧ s2.sentReset = s.sentReset ∧ s2.out = s.out
+      ∧ s2.toSend = s.toSend ∧ s2.hb = s.hb ∧ (∃ pre, s2.log = pre ++ s.log ∧ ∀ o ∈ pre, o = cbObs s m ∨ o = Obs.refresh)
+      ∧ handleLogon s m = logonTail s2 m s.store.sender := by
+  generalize hs1 : (if (!s.cfg.initiator && s.cfg.refreshOnLogon) = true then s.emit Obs.refresh else s) = s1
+  have a1 : s1.cfg = s.cfg ∧ s1.st = s.st ∧ s1.store = s.store ∧ s1.sentReset = s.sentReset ∧ s1.out = s.out ∧ s1.toSend = s.toSend
+      ∧ s1.hb = s.hb ∧ ∃ pre, s1.log = pre ++ s.log ∧ ∀ o ∈ pre, o = Obs.refresh := by
+    rw [← hs1]; split
+    · exact ⟨rfl, rfl, rfl, rfl, rfl, rfl, rfl, [.refresh], rfl, by simp⟩
+    · exact ⟨rfl, rfl, rfl, rfl, rfl, rfl, rfl, [], rfl, by simp⟩
+  obtain ⟨c1, c2, c3, c4, c5, c6, c7, pre1, l1, p1⟩ := a1
+  have hcb : cbObs s1 m = cbObs s m := by unfold cbObs; rw [c3]
+  have e1 : verifyAppImpl s1 m = (s1.emit (cbObs s1 m), none) := by rw [verifyAppImpl_pass s1 m (by rw [c1]; exact hg.valid), hv]
+  have hreset : ((if (s1.emit (cbObs s1 m)).cfg.initiator = true then false else (s1.emit (cbObs s1 m)).cfg.resetOnLogon)
+      || logonResetFlag m && !(s1.emit (cbObs s1 m)).sentReset) = false := by
+    show ((if s1.cfg.initiator = true then false else s1.cfg.resetOnLogon) || logonResetFlag m && !s1.sentReset) = false
+    rw [c1, hro, c4]
+    rcases hf with hf | hf <;> rw [hf] <;> simp
+  have e2 : verifySelect (s1.emit (cbObs s1 m)) m false true false = (s1.emit (cbObs s1 m), none) := by
+    rw [verifySelect_complete _ m false true false (by show BeginOK s1.cfg m; rw [c1]; exact hg.begin)
+      (by show CompOK s1.cfg m; rw [c1]; exact hg.comp) (timeGate_congr m (by show s1.st = s.st; exact c2) (by show s1.cfg = s.cfg; exact c1) ht)
+      ⟨fun _ => ⟨n, h34, by show s1.store.target ≤ n; rw [c3]; exact hge⟩, fun h => by cases h⟩]
+    rfl
+  refine ⟨s1.emit (cbObs s1 m), c1, c2, c3, c4, c5, c6, c7, ⟨cbObs s1 m :: pre1, by show _ :: s1.log = _; rw [l1]; rfl, ?_⟩, ?_⟩
+  · intro o ho
+    simp only [List.mem_cons] at ho
+    rcases ho with rfl | ho
+    · exact Or.inl hcb
+    · exact Or.inr (p1 o ho)
+  · unfold handleLogon
+    rw [if_neg (by rw [h5]; simp), hs1]
+    simp only [e1, hreset, Bool.false_eq_true, if_false, e2]
 
 theorem logonFixMsgIn_of_ok (s : Sess) (m : InMsg) (hk : kindOf m = "A") (h : (handleLogon s m).2 = none) :
     logonFixMsgIn s m = ((handleLogon s m).1, .inSession) := by
@@ -255,8 +417,12 @@ theorem logon_echo_no_reset (s : Sess) (m : InMsg) (hi : s.cfg.initiator = true)
           simp only []
           have : logonReply s4 m (logonResetFlag m) = s4 := by
             unfold logonReply; rw [a2.1]; rfl
-          rw [this]
-          exact h2.trans (relF_logonFinish _ m (by simp))
+          unfold logonTail
+          split
+          · have : logonRefused s4 m = s4 := by unfold logonRefused; rw [a2.1]; rfl
+            rw [this]; exact h2
+          · rw [this]
+            exact h2.trans (relF_logonFinish _ m _ (by simp))
     · rw [he]; exact RelF.refl s
 
 /-- the same for the acceptor in an established session (after `fix:` cbdc133; ResetOnLogon off — with it every Logon
@@ -312,7 +478,10 @@ theorem logon_echo_no_reset_acceptor (s : Sess) (m : InMsg) (hi : s.cfg.initiato
             cases logonResetFlag m
             · exact hb.2.2.trans (relF_sendLogonRe _ false m (Or.inr rfl))
             · exact hb.2.2
-          exact (h2.trans hr).trans (relF_logonFinish _ m (by simp))
+          unfold logonTail
+          split
+          · exact h2.trans (relF_logonRefused _ m)
+          · exact (h2.trans hr).trans (relF_logonFinish _ m _ (by simp))
     · rw [he]; exact h1
 
 theorem shouldSendReset_fix40 (s : Sess) (h : s.cfg.bs = 0) : shouldSendReset s = false := by
@@ -512,9 +681,7 @@ theorem sendLogon_plain (s : Sess) :
     ∧ (s.out = true → s'.log = .wire reply :: (if s.cfg.persist then .saved s.store.sender "A" (resendable reply) else .incS) :: s.log) := by
   intro reply s'
   have hk : isAdminKind (stamp s (logonMsg s false)).kind = true := by rw [stamp_kind, logonMsg_kind]; decide
-  have h141 : (logonMsg s false).f.get? 141 = none := by
-    unfold logonMsg mkOut Fields.get?
-    simp
+  have h141 : (logonMsg s false).f.get? 141 = none := logonMsgX_no141 s _
   have hr : ((stamp s (logonMsg s false)).kind == "A" && (stamp s (logonMsg s false)).f.get? 141 == some "Y") = false := by
     rw [stamp_f, h141]; simp
   have : s' = sendQueued ((s.persistOut s.store.sender reply).setToSend [reply]) := by
